@@ -12,6 +12,8 @@ MANIFEST_ENTRY = {
     "note": "AES-CTR and the tagged hashes are uninterpreted functions (decrypt inverts encrypt under the same key); json.dumps/loads and Unicode normalisation run natively on concrete names/metadata, so 'arbitrary JSON metadata' and 'any Unicode name' are covered only by the concrete samples -- level 'other'. NodeMaker.create_from_cap (what node comes out of a cap pair) is C16.",
     "technique": "contract-based deductive verification (pyvc VCs + z3, rope strings, uninterpreted crypto); child kinds and names enumerated",
 }
+MANIFEST_ENTRY["text"] += " Bounded end-to-end stand-in (run-time contract, never counted as proved): contracts/grid_dirnode.py drives real DirectoryNodes on real StorageServers through seeded histories of edits over 3..6 directories with NFC-colliding names, compares every listing (same client, fresh client with write cap, fresh client with read cap) with a name-map model and checks build_manifest/deep-stats against the model's graph."
+MANIFEST_ENTRY["technique"] += "; plus bounded end-to-end run-time scenario contracts on an in-process grid of the real components (stand-in, labelled bounded)"
 EXPLANATION = "pack/unpack as inverse contracts over symbolic capability strings."
 TRUSTED = ["AES-CTR decrypt inverts encrypt under the same key", "tagged hashes as uninterpreted functions", "json, unicodedata (run natively on concrete values)"]
 ASSUMPTIONS = ["capability strings do not end in a space (the packer's padding character)"]
